@@ -76,7 +76,7 @@ def type_witnesses(V, cfg, repo):
 
 def run(tier, seed):
     V = common.Verdict("C16", tier, seed)
-    configs = ["K17"] if tier == "quick" else ["K17", "K20"]
+    configs = ["K17", "K20"] if tier == "quick" else ["K17", "K20"]
     npairs = 0
     astlint.false_attr(V, "K17", only={"operator+=", "operator-=", "operator*=", "operator/="})
     for cfg in configs:
